@@ -108,7 +108,12 @@ def gen_tree(t, budget, ctx, depth=0):
         if kind == 'dict':
             return dict(items)
         if kind == 'odict':
-            return OrderedDict(items)
+            od = OrderedDict(items)
+            if len(items) >= 2 and t.draw(3, 'od-moved') == 2:
+                # reordered AFTER construction: the order of an OrderedDict lives in its own linked list, not in the
+                # underlying dict (which move_to_end leaves untouched)
+                od.move_to_end(items[t.draw(len(items), 'od-which')][0], last=bool(t.draw(2, 'od-last')))
+            return od
         fac = t.choice((None, int, list, dict), 'factory')
         return defaultdict(fac, items)
     if kind == 'nt':
